@@ -235,8 +235,16 @@ fn gen_chain(rng: &mut StdRng, abs: &mut Abs, cfg: &Cfg, e: &mut Emit, boost: u6
         let pl: Vec<u8> = blocks[i].payload.iter().filter_map(batch_id).collect();
         let mut late: Vec<u8> = vec![];
         for k in pl { if have.contains(&k) { continue; } let x: f64 = rng.gen(); if x < 0.6 { evs.push(Ev::Batch(k)); have.push(k); } else if x < 0.9 { late.push(k); } else { e.stat("batch_never", 1); } }
+        // sometimes the TC a block carries reaches the node on its own first (the node then enters the round with its old high QC)
+        let tc_first = blocks[i].tc.is_some() && rng.gen_bool(0.35);
+        if tc_first { e.stat("tc_before_proposal", 1); evs.push(Ev::TC(blocks[i].tc.clone().unwrap())); }
         evs.push(Ev::Propose(blocks[i].clone()));
-        if !late.is_empty() { e.stat("payload_late", 1); late.shuffle(rng); for k in late { if rng.gen_bool(0.3) { evs.push(Ev::Loop); } evs.push(Ev::Batch(k)); have.push(k); } }
+        if !late.is_empty() {
+            e.stat("payload_late", 1); late.shuffle(rng);
+            for k in late { if rng.gen_bool(0.3) { evs.push(Ev::Loop); } evs.push(Ev::Batch(k)); have.push(k); }
+            // ... and the resumed block is processed and the round then times out (the timeout must carry the voted block's QC)
+            if tc_first || rng.gen_bool(0.3) { evs.push(Ev::LoopAll); evs.push(Ev::Timer); e.stat("late_payload_then_timer", 1); }
+        }
         if rng.gen_bool(0.5) { evs.push(Ev::Loop); }
         if rng.gen_bool(0.2) {
             let b = &blocks[i]; let a = (cfg.me + 1 + rng.gen_range(0, cfg.n - 1)) % cfg.n;   // never a forged vote of the node itself
